@@ -672,6 +672,19 @@ pub fn other_builders() -> Vec<(&'static str, SerBuilder)> {
             Ok(out)
         })
     }));
+    // thresholds the setter accepts (it only rejects values ordered outside [0, 1]): the ends, a
+    // subnormal, an ordinary value and NaN
+    v.push(("logistic-model-threshold-variants", |seed| {
+        let d = make_data(61, 80, 2, false);
+        let y = d.ybin.mapv(|b| if b { 1usize } else { 0usize });
+        let t = [0.0, 1.0, 0.35, 1e-310, f64::NAN][(seed % 5) as usize];
+        let m = linfa_logistic::LogisticRegression::default().alpha(0.5).max_iterations(100).fit(&Dataset::new(d.x.clone(), y)).map_err(es)?.set_threshold(t);
+        ser!("logistic-model-threshold-variants", m, noeq, |m: &linfa_logistic::FittedLogisticRegression<f64, usize>| {
+            let q = make_data(62, 30, 2, false).x;
+            let y: Array1<usize> = m.predict(&q);
+            Ok(vec![("predict".into(), format!("{:?}", y.to_vec())), ("debug".into(), format!("{m:?}"))])
+        })
+    }));
     v.push(("tree-params-hostile", |seed| {
         let base = linfa_trees::DecisionTree::<f64, usize>::params().max_depth(Some(3));
         let h = hostile(seed) as f32;
